@@ -19,8 +19,12 @@ EXPLANATION = (
 )
 ASSUMPTIONS = ["redb transactions are atomic; an uncommitted WriteTransaction is rolled back on drop"]
 
+
 M = "store::fs::migrations::"
 EP = "<store::fs::StoreInstance<'a> as ranger::Store<sync::SignedEntry>>::entry_put::{closure#0}"
+
+
+EXPLANATION += ' (R1, round 8) every success return of Store::persistent ensures run_migrations (interprocedural), and Store values are built only on behalf of the constructors.'
 
 
 def r1(ctx):
